@@ -1,0 +1,91 @@
+//! Read-only structural snapshots used by the external verification harness.
+//! Compiled only with the `verif` cargo feature.
+
+use super::item::Item;
+use super::tree::{RegexTreeMap, UniqueRegexTreeMap};
+
+#[derive(Debug, Clone, PartialEq, Eq)]
+pub enum VerifTree {
+    Empty {
+        ignore_case: bool,
+    },
+    Node {
+        prefix: String,
+        regex: String,
+        compiled: bool,
+        ignore_case: bool,
+        children: Vec<VerifTree>,
+    },
+    Leaf {
+        pattern: String,
+        regex: String,
+        compiled: bool,
+        ignore_case: bool,
+        ids: Vec<String>,
+    },
+}
+
+fn snapshot<V>(item: &Item<V>) -> VerifTree {
+    match item {
+        Item::Empty(ignore_case) => VerifTree::Empty { ignore_case: *ignore_case },
+        Item::Node(node) => VerifTree::Node {
+            prefix: node.regex.original.clone(),
+            regex: node.regex.regex.clone(),
+            compiled: node.regex.compiled.is_some(),
+            ignore_case: node.regex.ignore_case,
+            children: node.children.iter().map(snapshot).collect(),
+        },
+        Item::Leaf(leaf) => {
+            let mut ids: Vec<String> = leaf.values.keys().cloned().collect();
+            ids.sort();
+
+            VerifTree::Leaf {
+                pattern: leaf.regex.original.clone(),
+                regex: leaf.regex.regex.clone(),
+                compiled: leaf.regex.compiled.is_some(),
+                ignore_case: leaf.regex.ignore_case,
+                ids,
+            }
+        }
+    }
+}
+
+fn entries<'a, V>(item: &'a Item<V>, out: &mut Vec<(String, String, &'a V)>) {
+    match item {
+        Item::Empty(_) => (),
+        Item::Node(node) => {
+            for child in &node.children {
+                entries(child, out);
+            }
+        }
+        Item::Leaf(leaf) => {
+            for (id, value) in &leaf.values {
+                out.push((leaf.regex.original.clone(), id.clone(), value));
+            }
+        }
+    }
+}
+
+impl<V> RegexTreeMap<V> {
+    pub fn verif_snapshot(&self) -> VerifTree {
+        snapshot(&self.root)
+    }
+
+    /// (pattern, id, value) of every stored entry
+    pub fn verif_entries(&self) -> Vec<(String, String, &V)> {
+        let mut out = Vec::new();
+        entries(&self.root, &mut out);
+        out
+    }
+}
+
+impl<V> UniqueRegexTreeMap<V> {
+    pub fn verif_snapshot(&self) -> VerifTree {
+        snapshot(&self.tree.root)
+    }
+
+    /// (pattern, id, value) of every stored entry
+    pub fn verif_entries(&self) -> Vec<(String, String, &V)> {
+        self.tree.verif_entries()
+    }
+}
